@@ -113,6 +113,8 @@ class Fn:
             ops = {ast.Add: "+", ast.Sub: "-", ast.Mult: "*"}
             if type(e.op) in ops and ta == tb == "Z":
                 return "(%s %s %s)" % (a, ops[type(e.op)], b), "Z"
+            if isinstance(e.op, ast.Add) and ta == tb and ta in ("cfg", "list str"):
+                return "(%s ++ %s)" % (a, b), ta
             raise Unsupported("binary %s on %s, %s" % (type(e.op).__name__, ta, tb))
         if isinstance(e, ast.BoolOp):
             nar = self.none_test(e.values[0])
@@ -302,7 +304,7 @@ class Fn:
         (x, tx), (y, ty) = a, b
         if isinstance(op, (ast.Is, ast.IsNot)) and ty == "none":
             # `x is None` on a value declared never to be None is statically decided (the declaration is an assumption)
-            if tx in ("Z", "str", "bool", "metrics"):
+            if tx in ("Z", "str", "bool", "metrics", "handler"):
                 self.notes.append("`%s is None` decided statically: declared %s" % (x, tx))
                 return "false" if isinstance(op, ast.Is) else "true"
             if tx.startswith("option"):
@@ -330,6 +332,11 @@ class Fn:
                  ast.Gt: "(%s >? %s)", ast.GtE: "(%s >=? %s)"}
             if type(op) in m:
                 return m[type(op)] % (x, y)
+        if tx == ty == "nat":
+            if isinstance(op, ast.Eq):
+                return "(Nat.eqb %s %s)" % (x, y)
+            if isinstance(op, ast.NotEq):
+                return "(negb (Nat.eqb %s %s))" % (x, y)
         if tx == ty == "str":
             if isinstance(op, ast.Eq):
                 return "(str_eqb %s %s)" % (x, y)
@@ -345,8 +352,9 @@ class Fn:
         if pat is not None and pat in self.calls:
             head, argtys, rty = self.calls[pat]
             args = [self.expr(a) for a in e.args]
-            if [t for _, t in args] != list(argtys):
-                raise Unsupported("call %s with argument types %s" % (pat, [t for _, t in args]))
+            if len(args) != len(argtys):
+                raise Unsupported("call %s with %d arguments" % (pat, len(args)))
+            args = [(self.coerce(a, t, w), w) for (a, t), w in zip(args, argtys)]
             head = self.subst(head)
             return "(" + " ".join([head] + [a for a, _ in args]) + ")", rty
         if isinstance(f, ast.Name) and f.id == "getattr" and len(e.args) == 3 and dotted(e.args[0]) == "self" \
@@ -372,6 +380,9 @@ class Fn:
                 return "(get_or %s %s %s)" % (a, k, d), "str"
             if tk == "str" and td == "none":
                 return "(alookup %s %s)" % (k, a), "option str"
+        if isinstance(f, ast.Name) and f.id == "str" and len(e.args) == 1 and self.expr(e.args[0])[1] == "nat":
+            self.notes.append("str(uuid) is the identity on handles (a handle is an opaque token)")
+            return self.expr(e.args[0])
         if isinstance(f, ast.Name) and f.id == "str" and len(e.args) == 1:
             a, ta = self.expr(e.args[0])
             if ta == "str":
@@ -413,6 +424,11 @@ class Fn:
                 raise Unsupported("function may end without returning")
             return value[0]
         st = "(" + ", ".join(self.state[p][0] for p in self.state_order) + ")" if len(self.state_order) > 1 else self.state[self.state_order[0]][0]
+        if self.spec.get("on_return"):
+            # (state, value-or-how-it-ended): the spec says how a returned value / a bare return is represented
+            if value is None or value[1] == "none":
+                return "(%s, %s)" % (st, self.spec["on_return"]["none"])
+            return "(%s, %s)" % (st, self.spec["on_return"]["value"] % value[0])
         if self.spec.get("outcomes"):
             # a procedure on declared state that may raise: (state, how it ended)
             if value is not None and value[1] != "none":
@@ -424,6 +440,8 @@ class Fn:
 
     def raised(self, exc):
         oc = self.spec.get("outcomes", {})
+        if self.spec.get("on_return") and exc in self.spec["on_return"].get("raises", {}):
+            oc = self.spec["on_return"]["raises"]
         if exc not in oc:
             raise Unsupported("raise %s" % exc)
         st = "(" + ", ".join(self.state[p][0] for p in self.state_order) + ")" if len(self.state_order) > 1 else self.state[self.state_order[0]][0]
@@ -595,6 +613,45 @@ class Fn:
             if ta != "str":
                 raise Unsupported("append of a %s" % ta)
             return self.bind(name, "(%s ++ [%s])" % (self.env[name][0], a), "list str", rest)
+        if isinstance(st, ast.Assign) and len(st.targets) == 1 and isinstance(st.targets[0], ast.Name) \
+                and isinstance(st.value, ast.Call) and dotted(st.value.func) in self.stmt_calls:
+            # x = <declared effectful call>: the effect is translated, the handle it returns carries no modelled information
+            self.env[st.targets[0].id] = ("tt", "unit")
+            return self.block([ast.Expr(value=st.value)] + list(rest))
+        if isinstance(st, ast.Expr) and isinstance(st.value, ast.Call) and isinstance(st.value.func, ast.Attribute) \
+                and st.value.func.attr == "append" and len(st.value.args) == 1 and dotted(st.value.func.value) in self.state \
+                and self.state[dotted(st.value.func.value)][1].startswith("list "):
+            sp = dotted(st.value.func.value)
+            a, ta = self.expr(st.value.args[0])
+            elt = self.state[sp][1][len("list "):]
+            return self.bind(sp, "(%s ++ [%s])" % (self.state[sp][0], self.coerce(a, ta, elt)), self.state[sp][1], rest)
+        if isinstance(st, ast.For) and not st.orelse and isinstance(st.target, ast.Tuple) and len(st.target.elts) == 2 \
+                and all(isinstance(t, ast.Name) for t in st.target.elts) and isinstance(st.iter, ast.Call) and dotted(st.iter.func) == "enumerate" \
+                and len(st.iter.args) == 1 and dotted(st.iter.args[0]) in self.state and len(st.body) == 1 and isinstance(st.body[0], ast.If) \
+                and not st.body[0].orelse and isinstance(st.body[0].body[-1], ast.Return):
+            # for i, x in enumerate(L): if C(x): ...; return       ==   the first index whose element satisfies C, if any
+            sp = dotted(st.iter.args[0])
+            lst, tl_ = self.state[sp]
+            if not tl_.startswith("list "):
+                raise Unsupported("enumerate over a %s" % tl_)
+            iname, xname = st.target.elts[0].id, st.target.elts[1].id
+            i, x = self.new(iname + "_"), self.new(xname + "_")
+            saved = dict(self.state), dict(self.env)
+            self.env[xname] = (x, tl_[len("list "):])
+            c, tc = self.expr(st.body[0].test)
+            self.env[iname] = (i, "index")
+            found = self.block(list(st.body[0].body))
+            self.state, self.env = dict(saved[0]), dict(saved[1])
+            after = self.block(list(rest))
+            self.state, self.env = saved
+            return "(match find_index (fun %s => %s) %s with Some %s => %s | None => %s end)" % (x, self.truth(c, tc), lst, i, found, after)
+        if isinstance(st, ast.Delete) and len(st.targets) == 1 and isinstance(st.targets[0], ast.Subscript) \
+                and dotted(st.targets[0].value) in self.state and self.state[dotted(st.targets[0].value)][1].startswith("list "):
+            sp = dotted(st.targets[0].value)
+            k, tk = self.expr(st.targets[0].slice)
+            if tk != "index":
+                raise Unsupported("del list[%s]" % tk)
+            return self.bind(sp, "(remove_nth %s %s)" % (k, self.state[sp][0]), self.state[sp][1], rest)
         if isinstance(st, ast.Assign) and len(st.targets) == 1 and isinstance(st.targets[0], ast.Tuple) \
                 and all(isinstance(t, ast.Name) for t in st.targets[0].elts):
             v, tv = self.expr(st.value)
@@ -615,13 +672,39 @@ class Fn:
             pat = dotted(st.target)
             v, tv = self.expr(ast.BinOp(left=st.target, op=st.op, right=st.value))
             return self.bind(pat, v, tv, rest)
+        if isinstance(st, ast.Expr) and isinstance(st.value, ast.Call) and dotted(st.value.func) in self.spec.get("noop_calls", []):
+            self.notes.append("%s(...) is declared to have no effect on the modelled state" % dotted(st.value.func))
+            return self.block(rest)
+        if isinstance(st, ast.For) and not st.orelse and isinstance(st.target, ast.Name) and dotted(st.iter) in self.spec.get("listener_loops", {}) \
+                and len(st.body) == 1 and isinstance(st.body[0], ast.Try) and not st.body[0].orelse and not st.body[0].finalbody \
+                and len(st.body[0].body) == 1 and isinstance(st.body[0].body[0], ast.Expr) and isinstance(st.body[0].body[0].value, ast.Call):
+            # for l in listeners: try: l.<method>(args) except Exception: <log>      every listener is handed the same arguments
+            ll = self.spec["listener_loops"][dotted(st.iter)]
+            call = st.body[0].body[0].value
+            ok = dotted(call.func) == st.target.id + "." + ll["method"] and not call.keywords
+            for h in st.body[0].handlers:
+                ok = ok and dotted(h.type) == "Exception" and all(
+                    isinstance(x, ast.Expr) and isinstance(x.value, ast.Call) and (dotted(x.value.func) or "").startswith("logging.") for x in h.body)
+            if not ok:
+                raise Unsupported("listener loop of another shape")
+            args = [self.expr(a) for a in call.args]
+            if len(args) != len(ll["args"]):
+                raise Unsupported("listener call with %d arguments" % len(args))
+            args = [self.coerce(a, t, w) for (a, t), w in zip(args, ll["args"])]
+            sp = ll["updates"]
+            n = self.new(self.spec["state_names"][sp])
+            callt = " ".join([self.subst(ll["fn"])] + args)
+            self.state[sp] = (n, self.state[sp][1])
+            self.notes.append("listeners: each is called with the same arguments; one that raises an Exception is logged and skipped")
+            return "(let %s := %s in %s)" % (n, callt, self.block(rest))
         if isinstance(st, ast.Expr) and isinstance(st.value, ast.Call):
             pat = dotted(st.value.func)
             if pat in self.stmt_calls and not st.value.keywords:
                 sc = self.stmt_calls[pat]
                 args = [self.expr(a) for a in st.value.args]
-                if [t for _, t in args] != list(sc["args"]):
-                    raise Unsupported("call %s with argument types %s" % (pat, [t for _, t in args]))
+                if len(args) != len(sc["args"]):
+                    raise Unsupported("call %s with %d arguments" % (pat, len(args)))
+                args = [(self.coerce(a, t, w), w) for (a, t), w in zip(args, sc["args"])]
                 call = " ".join([self.subst(sc["fn"])] + [a for a, _ in args])
                 names = []
                 for p in sc["updates"]:
@@ -654,7 +737,7 @@ class Fn:
             raise Unsupported("assignment target")
         if pat in self.state:
             if self.state[pat][1] != tv:
-                raise Unsupported("state %s changes type" % pat)
+                v, tv = self.coerce(v, tv, self.state[pat][1]), self.state[pat][1]      # a value / None where an option is declared
             n = self.new(self.spec["state_names"][pat])
             self.state[pat] = (n, tv)
             return "(let %s := %s in %s)" % (n, v, self.block(rest))
@@ -768,6 +851,69 @@ SPECS = [
                 "build_metric_action": ("gen_build_metric_action", ["str", "args", "metrics"], "option gaction"),
                 "build_span_action": ("gen_build_span_action", ["str", "args"], "option gaction"),
                 "Trigger": ("mk_trigger", ["loc", "list gaction"], "gtrigger")}),
+    # ---- the tracepoint configuration service (C12)
+    dict(group="Service", name="gen_update_no_change", path="config/tracepoint_config.py", cls="TracepointConfigService", func="update_no_change",
+         params="(last_update ts : Z)", ret="Z", args=["self", "ts"], falls_off=True, env={"ts": ("ts", "Z")},
+         state={"self._last_update": ("last_update", "Z")}, state_names={"self._last_update": "last_update"}),
+    dict(group="Service", name="gen_trigger_update", path="config/tracepoint_config.py", cls="TracepointConfigService", func="__trigger_update",
+         params="(polled : cfg) (hash : option nat) (last_update : Z) (pending : list task) (old_hash : option nat) (old_config : option cfg)",
+         ret="list task", args=["self", "old_hash", "old_config"], falls_off=True,
+         env={"old_hash": ("old_hash", "option nat"), "old_config": ("old_config", "option cfg"),
+              "self._last_update": ("last_update", "Z"), "self._current_hash": ("hash", "option nat"),
+              "self._tracepoint_config": ("polled", "cfg"), "self._task_handler": ("tt", "handler"),
+              "self.update_listeners": ("tt", "unit")},
+         state={"pending": ("pending", "list task")}, state_names={"pending": "pending"},
+         stmt_calls={"self._task_handler.submit_task": dict(fn="submit_task {pending}", updates=["pending"],
+                                                           args=["unit", "Z", "option nat", "option nat", "option cfg", "cfg"])},
+         noop_calls=["future.add_done_callback"]),
+    dict(group="Service", name="gen_update_new_config", path="config/tracepoint_config.py", cls="TracepointConfigService", func="update_new_config",
+         params="(polled : cfg) (hash : option nat) (last_update : Z) (pending : list task) (ts : Z) (new_hash : nat) (new_config : cfg)",
+         ret="cfg * option nat * Z * list task", args=["self", "ts", "new_hash", "new_config"], falls_off=True,
+         env={"ts": ("ts", "Z"), "new_hash": ("new_hash", "nat"), "new_config": ("new_config", "cfg")},
+         state={"self._tracepoint_config": ("polled", "cfg"), "self._current_hash": ("hash", "option nat"),
+                "self._last_update": ("last_update", "Z"), "pending": ("pending", "list task")},
+         state_names={"self._tracepoint_config": "polled", "self._current_hash": "hash", "self._last_update": "last_update", "pending": "pending"},
+         stmt_calls={"self.__trigger_update": dict(fn="gen_trigger_update {self._tracepoint_config} {self._current_hash} {self._last_update} {pending}",
+                                                   updates=["pending"], args=["option nat", "option cfg"])}),
+    dict(group="Service", name="gen_update_listeners", path="config/tracepoint_config.py", cls="TracepointConfigService", func="update_listeners",
+         params="(polled : cfg) (hash : option nat) (custom : cfg) (installed : cfg) (ts : Z) (old_hash current_hash : option nat) (old_config : option cfg) (new_config : cfg)",
+         ret="cfg", args=["self", "ts", "old_hash", "current_hash", "old_config", "new_config"], falls_off=True, locks=["self._update_lock"],
+         env={"ts": ("ts", "Z"), "old_hash": ("old_hash", "option nat"), "current_hash": ("current_hash", "option nat"),
+              "old_config": ("old_config", "option cfg"), "new_config": ("new_config", "cfg"),
+              "self._current_hash": ("hash", "option nat"), "self._tracepoint_config": ("polled", "cfg"),
+              "self._custom": ("custom", "cfg"), "self._listeners": ("tt", "listeners")},
+         calls={"self._listeners.copy": ("tt", [], "listeners")},
+         state={"installed": ("installed", "cfg")}, state_names={"installed": "installed"},
+         listener_loops={"listeners_copy": dict(method="config_change", fn="deliver {installed}", updates="installed",
+                                                args=["Z", "option nat", "option nat", "option cfg", "cfg"])}),
+    dict(group="Service", name="gen_add_custom", path="config/tracepoint_config.py", cls="TracepointConfigService", func="add_custom",
+         params="(polled : cfg) (hash : option nat) (last_update : Z) (custom_ids custom : list nat) (pending : list task) (fresh_handle : nat) (built : option nat)",
+         ret="(list nat * list nat * list task) * option nat", args=["self", "path", "line", "args", "watches", "metrics"],
+         env={"path": ("tt", "unit"), "line": ("tt", "unit"), "args": ("tt", "unit"), "watches": ("tt", "unit"), "metrics": ("tt", "unit")},
+         calls={"uuid.uuid4": ("fresh_handle", [], "nat"),
+                "build_trigger": ("interp_built built", ["nat", "unit", "unit", "unit", "unit", "unit"], "option nat")},
+         state={"self._custom_ids": ("custom_ids", "list nat"), "self._custom": ("custom", "list nat"), "pending": ("pending", "list task")},
+         state_names={"self._custom_ids": "custom_ids", "self._custom": "custom", "pending": "pending"},
+         on_return=dict(value="Some %s", none="None", raises={"ValueError": "None"}),
+         stmt_calls={"self.__trigger_update": dict(fn="gen_trigger_update polled hash last_update {pending}",
+                                                   updates=["pending"], args=["option nat", "option cfg"])}),
+    dict(group="Service", name="gen_remove_custom", path="config/tracepoint_config.py", cls="TracepointConfigService", func="remove_custom",
+         params="(polled : cfg) (hash : option nat) (last_update : Z) (custom_ids custom : list nat) (pending : list task) (_id : nat)",
+         ret="list nat * list nat * list task", args=["self", "_id"], falls_off=True, env={"_id": ("_id", "nat")},
+         state={"self._custom_ids": ("custom_ids", "list nat"), "self._custom": ("custom", "list nat"), "pending": ("pending", "list task")},
+         state_names={"self._custom_ids": "custom_ids", "self._custom": "custom", "pending": "pending"},
+         stmt_calls={"self.__trigger_update": dict(fn="gen_trigger_update polled hash last_update {pending}",
+                                                   updates=["pending"], args=["option nat", "option cfg"])}),
+    dict(group="Service", name="gen_handler_new_config", path="processor/trigger_handler.py", cls="TriggerHandler", func="new_config",
+         params="(installed new_config : cfg)", ret="cfg", args=["self", "new_config"], falls_off=True,
+         env={"new_config": ("new_config", "cfg")},
+         state={"self._tp_config": ("installed", "cfg")}, state_names={"self._tp_config": "installed"}),
+    dict(group="Service", name="gen_listener_config_change", path="processor/trigger_handler.py", cls="TracepointHandlerUpdateListener", func="config_change",
+         params="(installed : cfg) (ts : Z) (old_hash current_hash : option nat) (old_config : option cfg) (new_config : cfg)", ret="cfg",
+         args=["self", "ts", "old_hash", "current_hash", "old_config", "new_config"], falls_off=True,
+         env={"new_config": ("new_config", "cfg")},
+         state={"installed": ("installed", "cfg")}, state_names={"installed": "installed"},
+         stmt_calls={"self._handler.new_config": dict(fn="gen_handler_new_config {installed}", updates=["installed"], args=["cfg"])}),
     # ---- the bounded attribute store (C18)
     dict(group="Store", name="gen_setitem", path="api/attributes/__init__.py", cls="BoundedAttributes", func="__setitem__",
          params="(cap vlimit : option Z) (immutable : bool) (items : list (str * cval)) (dropped : Z) (key : str) (value : val)",
@@ -820,6 +966,7 @@ GROUPS = {           # generated file -> (imports, which properties' theorems ar
     "Table": ("From Deep Require Import Base Match TriggerTable PureSupport.", ["C11"]),
     "Frames": ("From Deep Require Import Base PureSupport.", ["C19", "C02"]),
     "Store": ("From Deep Require Import Base Attrs PureSupport.", ["C18"]),
+    "Service": ("From Deep Require Import Base ConfigSvc PureSupport.", ["C12", "C13"]),
 }
 HEADER = '''(* GENERATED by harness/translate/pure.py from /repo/src/deep - do not edit.
    Each definition is the statement-by-statement translation of one pure function of the agent. *)
